@@ -47,6 +47,11 @@ class Knobs:
         elif self.flavour == "errors":
             self.p_fallible_comp = 0.6
             self.p_fallible_ctor = 0.4
+        elif self.flavour == "routing":
+            # deep nesting, a fallback in (almost) every blueprint that may have one, many routes, few middlewares
+            self.n_handlers = (7, 11)
+            self.n_mws = (0, 2)
+            self.n_types = (3, 6)
 
 
 def rint(rng, lohi):
@@ -362,7 +367,7 @@ def gen_inclass(rng, knobs=None):
                 items.append(["obs", new_obs(local_types)])
             elif it[0] is None and it[1] == "nest":
                 opts = {}
-                if rng.random() < 0.6:
+                if rng.random() < (0.35 if kn.flavour == "routing" else 0.6):
                     opts["prefix"] = "/n%d" % counters["label"]
                     counters["label"] += 1
                     if rng.random() < 0.2:
@@ -380,7 +385,7 @@ def gen_inclass(rng, knobs=None):
         if pushed_local is not None:
             local_errors.remove(pushed_local)
         fallback_allowed = depth == 0 or own_prefix or not under_prefix
-        if fallback_allowed and rng.random() < (0.5 if depth == 0 else 0.4):
+        if fallback_allowed and rng.random() < (0.9 if kn.flavour == "routing" else 0.5 if depth == 0 else 0.4):
             items.insert(rng.randint(0, len(items)), ["fallback", new_fb([t for t in local_types if spec["types"][t]["disc"] != "moved"])])
         return {"items": items}
 
